@@ -21,6 +21,8 @@ size_t sched_conflicts(int x, int y, uintptr_t *addrs, int *kinds, size_t max);
 unsigned long sched_nread(int t); unsigned long sched_nwrite(int t); size_t sched_cells(int t);
 void *sched_memcpy(void *d, const void *s, size_t n); void *sched_memmove(void *d, const void *s, size_t n);
 void *sched_memset(void *d, int c, size_t n); int sched_memcmp(const void *a, const void *b, size_t n);
+extern void (*sched_yield_hook)(void); extern unsigned long sched_points;
+void sched_watch_clear(void); void sched_watch_add(uintptr_t cell_addr);
 #define memcpy sched_memcpy
 #define memmove sched_memmove
 #define memset sched_memset
@@ -51,6 +53,93 @@ static const char *symname(uintptr_t a, char *bufp, size_t n) {
     return bufp;
 }
 
+/* ---- preemption-bounded schedule exploration for a DEPENDENT pair (ucontext coroutines, deterministic) ---- */
+#include <ucontext.h>
+#define CO_STACK (1 << 20)
+static ucontext_t co_main, co_ctx[2];
+static unsigned char *co_stack[2];
+static int co_done[2], co_running;
+static secp256k1_context *co_libctx;
+static int co_ops[2];
+static unsigned long co_preempt[3];      /* scheduling-point indices at which the running thread is preempted */
+static int co_npre, co_used;
+
+static void co_body(int k) {
+    sched_set(k + 1);
+    verif_battery_op(co_libctx, co_ops[k], tout[k], CAPB, &tlen[k]);
+    sched_set(0);
+    co_done[k] = 1;
+    swapcontext(&co_ctx[k], &co_main);
+}
+static void co_entry0(void) { co_body(0); }
+static void co_entry1(void) { co_body(1); }
+static void co_yield(void) {
+    /* called at a scheduling point of the running logical thread */
+    if (co_used < co_npre && sched_points - 1 == co_preempt[co_used]) {
+        int me = co_running, other = 1 - me;
+        co_used++;
+        if (!co_done[other]) {
+            co_running = other;
+            sched_set(0);
+            swapcontext(&co_ctx[me], &co_main);       /* back to the driver, which resumes `other` */
+            sched_set(me + 1);
+        }
+    }
+}
+/* run one schedule: start with thread `firstt`, preempt at the given points; returns number of wrong outputs */
+static int co_run(int firstt) {
+    int k, wrong = 0;
+    sched_reset(); sched_private_clear();
+    for (k = 0; k < 2; k++) {
+        co_done[k] = 0;
+        getcontext(&co_ctx[k]);
+        co_ctx[k].uc_stack.ss_sp = co_stack[k]; co_ctx[k].uc_stack.ss_size = CO_STACK; co_ctx[k].uc_link = &co_main;
+        makecontext(&co_ctx[k], k == 0 ? co_entry0 : co_entry1, 0);
+        sched_private_add(co_stack[k], CO_STACK, k + 1);
+        sched_private_add(tout[k], CAPB, k + 1); sched_private_add(&tlen[k], sizeof(size_t), k + 1);
+        memset(tout[k], 0, 64); tlen[k] = 0;
+    }
+    sched_points = 0; co_used = 0; co_running = firstt;
+    while (!co_done[0] || !co_done[1]) {
+        int r = co_running;
+        if (co_done[r]) { r = 1 - r; co_running = r; }
+        swapcontext(&co_main, &co_ctx[r]);
+        /* returned: either r finished or r was preempted (co_running already points at the other thread) */
+        if (co_done[r] && !co_done[1 - r]) co_running = 1 - r;
+    }
+    for (k = 0; k < 2; k++) if (tlen[k] != ref_len[co_ops[k]] || memcmp(tout[k], ref_out[co_ops[k]], tlen[k]) != 0) wrong++;
+    return wrong;
+}
+/* enumerate every schedule with at most 2 preemptions; prints a JSON object */
+static void co_explore(secp256k1_context *ctx, int opi, int opj, uintptr_t *cells, size_t ncells) {
+    unsigned long total_points, schedules = 0, bad = 0, a, b;
+    unsigned long first_bad[4] = {0, 0, 0, 0};
+    int ft, npre;
+    size_t c;
+    co_libctx = ctx; co_ops[0] = opi; co_ops[1] = opj;
+    co_stack[0] = malloc(CO_STACK); co_stack[1] = malloc(CO_STACK);
+    sched_watch_clear();
+    for (c = 0; c < ncells && c < 64; c++) sched_watch_add(cells[c]);
+    sched_yield_hook = co_yield;
+    co_npre = 0;
+    (void)co_run(0); schedules++;
+    total_points = sched_points;
+    for (ft = 0; ft < 2; ft++) for (npre = (ft == 0 ? 1 : 0); npre <= 2; npre++) {
+        if (npre == 0) { co_npre = 0; schedules++; if (co_run(ft)) { if (!bad) { first_bad[0] = ft; first_bad[1] = 0; } bad++; } continue; }
+        for (a = 0; a < total_points && schedules < 300000; a++) {
+            if (npre == 1) { co_npre = 1; co_preempt[0] = a; schedules++; if (co_run(ft)) { if (!bad) { first_bad[0] = ft; first_bad[1] = 1; first_bad[2] = a; } bad++; } continue; }
+            for (b = a + 1; b < total_points && schedules < 300000; b++) {
+                co_npre = 2; co_preempt[0] = a; co_preempt[1] = b; schedules++;
+                if (co_run(ft)) { if (!bad) { first_bad[0] = ft; first_bad[1] = 2; first_bad[2] = a; first_bad[3] = b; } bad++; }
+            }
+        }
+    }
+    sched_yield_hook = 0;
+    printf("{\"mode\":\"explore\",\"ops\":[%d,%d],\"scheduling_points\":%lu,\"schedules\":%lu,\"preemption_bound\":2,\"capped\":%d,\"wrong_output_schedules\":%lu,\"first_bad\":{\"first_thread\":%lu,\"preemptions\":%lu,\"at\":[%lu,%lu]}}\n",
+           opi, opj, total_points, schedules, schedules >= 300000, bad, first_bad[0], first_bad[1], first_bad[2], first_bad[3]);
+    free(co_stack[0]); free(co_stack[1]);
+}
+
 int main(int argc, char **argv) {
     secp256k1_context *ctx;
     int i, j, k, nthreads = 2, first = 1;
@@ -60,6 +149,25 @@ int main(int argc, char **argv) {
     if (argc > 1) nthreads = atoi(argv[1]);
     if (argc > 2) triples = atoi(argv[2]);
     if (argc > 4) { only_i = atoi(argv[3]); only_j = atoi(argv[4]); }
+    if (argc > 5 && strcmp(argv[5], "explore") == 0) {
+        uintptr_t addrs[64]; int kinds[64]; size_t c;
+        sched_init();
+        ctx = secp256k1_context_create(SECP256K1_CONTEXT_NONE);
+        memset(seed, 0x5a, 32);
+        if (!secp256k1_context_randomize(ctx, seed)) return 2;
+        if (!verif_shared_init(ctx)) return 2;
+        for (i = 0; i < VERIF_N_OPS; i++) verif_battery_op(ctx, i, ref_out[i], CAPB, &ref_len[i]);
+        sched_reset(); sched_private_clear();
+        for (k = 0; k < 2; k++) {
+            sched_private_add(tout[k], CAPB, k + 1); sched_private_add(&tlen[k], sizeof(size_t), k + 1);
+            sched_set(k + 1); verif_battery_op(ctx, k == 0 ? only_i : only_j, tout[k], CAPB, &tlen[k]); sched_set(0);
+        }
+        c = sched_conflicts(1, 2, addrs, kinds, 64);
+        if (!c) c = sched_conflicts(2, 1, addrs, kinds, 64);
+        if (!c) { printf("{\"mode\":\"explore\",\"ops\":[%d,%d],\"dependent\":false}\n", only_i, only_j); return 0; }
+        co_explore(ctx, only_i, only_j, addrs, c > 64 ? 64 : c);
+        return 0;
+    }
     sched_init();
     ctx = secp256k1_context_create(SECP256K1_CONTEXT_NONE);
     memset(seed, 0x5a, 32);
